@@ -206,6 +206,7 @@ class Generator:
         fromafter = False   # `//@fromafter <<<a>>>`: the region starts just AFTER the anchor
         until = False   # `//@until <<<a>>>`: the region ends just BEFORE the anchor; `//@from <<<^>>>`: starts at the body's first statement
         spec, edits = "", []
+        rloops = {}
         for c in cont:
             m = re.match(r"^//@sig\s+(.*)$", c)
             if m: sig = m.group(1); continue
@@ -219,6 +220,8 @@ class Generator:
             if m: to = m.group(1); until = True; continue
             m = re.match(r"^//@\|\s?(.*)$", c)
             if m: spec += m.group(1) + "\n"; continue
+            m = re.match(r"^//@loop\s+(\d+)\|\s?(.*)$", c)
+            if m: rloops.setdefault(int(m.group(1)), []).append(m.group(2)); continue
             edits.append(c)
         if not (sig and frm and to):
             raise AnchorLost("region needs sig/from/to")
@@ -239,6 +242,8 @@ class Generator:
         for c in edits:
             if c.startswith("//@before") or c.startswith("//@after"):
                 body = self._apply_insert(c, "{" + body + "}", rules, it)[1:-1]
+        if rloops:
+            body = self._splice_loops("{" + body + "}", rloops, it)[1:-1]
         line = sf.src.count("\n", 0, sf.toks[it.body_open].start + mf[0].start()) + 1
         lo = len(g.lines) + 1
         g.lines.append("// >>> [region] %s:%d %s" % (rel, line, path))
